@@ -84,8 +84,10 @@ Idle == tail = NoSlot /\ pop = NoSlot
 Behind == Len(buf) > si      \* readable or uncommitted bytes behind the save area
 
 \* Write(packet) Commit Save: the packet becomes the newest slot
+Held == {sl[i].seq : i \in 1..Len(sl)}
 SaveStep(s, n, v) ==
   /\ Idle /\ ~Behind
+  /\ (Mode = "off" => s \notin Held)          \* handles name the slots the caller holds
   /\ Do([E0 EXCEPT !.ev = "Save", !.seq = s, !.v = v, !.n = n, !.toks = PktToks(s, n, v), !.idx = si, !.len = n],
         buf \o PktToks(s, n, v), si + n, si + n, tree, sl, bytes,
         [seq |-> s, idx |-> si, len |-> n, failed |-> FALSE], NoSlot)
@@ -179,7 +181,8 @@ SimStep ==
   /\ IF tail # NoSlot THEN PushStep \/ DropTail
      ELSE IF pop # NoSlot THEN DiscardStep
      ELSE \E w \in {RandomElement(1..12)} :
-       CASE w <= 5 /\ ~Behind -> \E s \in {RandomElement(Seqs)}, n \in {RandomElement(Sizes)}, v \in {RandomElement({0, 1})} : SaveStep(s, n, v)
+       CASE w <= 5 /\ ~Behind /\ Mode = "off" /\ Seqs \ Held = {} -> \E s \in {RandomElement(Held)} : PopStep(s)
+         [] w <= 5 /\ ~Behind -> \E s \in {RandomElement(IF Mode = "off" THEN Seqs \ Held ELSE Seqs)}, n \in {RandomElement(Sizes)}, v \in {RandomElement({0, 1})} : SaveStep(s, n, v)
          [] w <= 5 /\ Behind -> IF ri > si THEN Eat ELSE Shrink
          [] w \in 6..8 -> IF sl = <<>> THEN UNCHANGED <<implvars, monvars, hist>>
                            ELSE \E s \in {RandomElement({sl[i].seq : i \in 1..Len(sl)})} : PopStep(s)     \* a stored number
